@@ -570,11 +570,15 @@ def nt_rep(labels):
 @st.composite
 def type_case(draw):
     kind = draw(objs.s_pick(objs.ALL_KINDS))
+    if draw(objs.s_pick([0, 1, 2, 3])) == 0:
+        # "or another transformation": a third of the cases compose two maps, of the same
+        # or of different classes (the image has the class of X, not of T)
+        kind = draw(objs.s_pick(list(objs.MATRIX_KINDS)))
     n = draw(s_dim(kind))
     # two shapes that broadcast against each other by construction
     sx, stt = draw(objs.s_broadcast_pair(max_rank=2))
-    tcls = draw(st.sampled_from(["P.Transformation", "H.Isometry"]))
-    mode = draw(st.sampled_from(["elementwise", "pairwise", "pairwise_reversed", "matmul"]))
+    tcls = draw(objs.s_pick(["P.Transformation", "H.Isometry"]))
+    mode = draw(objs.s_pick(["elementwise", "pairwise", "pairwise_reversed", "matmul"]))
     mats = [draw(objs.s_isometry(n, factors=1)) for _ in range(gen.prod(stt))]
     return dict(obj=draw(objs.s_object(kind, n, sx, False)), tshape=stt, tcls=tcls,
                 mats=mats, mode=mode, col=draw(st.booleans()))
@@ -593,6 +597,8 @@ def body_type(case, ctx):
               "rankX=%d" % len(sx), "rankT=%d" % len(stt))
     if objs.is_hyp(kind) != (case["tcls"] == "H.Isometry"):
         ctx.label("cross-module")
+        if kind in objs.MATRIX_KINDS:
+            ctx.label("map-of-another-class:" + mode)
     if mode == "matmul":
         Y = T @ X
         want = np.broadcast_shapes(sx, stt)
